@@ -141,7 +141,8 @@ ADDENDA = {
     'C05': 'TEXT-TO-CODE: C05_update_pairs_exact: an assignment list `v1 = r1, v2 = r2, ...` (targets a[.#a-zA-Z0-9[]_]*, right-hand sides in which the assignment scanner finds nothing) is cut into exactly the pairs (vi, strip ri), '
            'in order; C05_translate_update_indices / _first_unknown (indices through the variable map; the FIRST unknown target is reported); C05_update_must_start_with_assignment; C05_kwarg_counterexample (`f(a2, a3 = 1)` is split: the documented limitation). '
            'Tied to translate_update_expression of both ports (exhaustive short strings + token sequences). Tables with SHARED row objects (the same list several times, the table as its own join table) on both ports. ',
-    'C06': 'ROW FLOW, regenerated from the source on every run (tools/row_flow_scan.py -> Generated/RowFlow.lean: every binding of a row variable in the main-loop templates, select_simple / select_unnested / select_except and the five chain writers of rbql_engine.py and rbql.js, '
+    'C06': 'ALSO INPUTS: the lists of column names (D27 fixed; the row-flow translator follows the header handed to the writer), rbql-js arrays with undefined cells and holes (structural snapshot), the input file of real INTERACTIVE command-line sessions, source files named like scratch files of the output (<output>.tmp …). '
+           'ROW FLOW, regenerated from the source on every run (tools/row_flow_scan.py -> Generated/RowFlow.lean: every binding of a row variable in the main-loop templates, select_simple / select_unnested / select_except and the five chain writers of rbql_engine.py and rbql.js, '
            'classified alias / copy / fresh, every in-place mutation, every row handed to a writer; the select / update / except expression texts come from the real shallow_parse_input_query / translate_* functions): generated obligation C06_generated_row_flows_pass_check '
            '(decide +kernel), whose meaning is C06_row_flow_sound: a heap machine in which rows are references; if the may-alias check passes then NO program made of the flow\'s statements, in any order and number, modifies an object of the caller\'s tables or hands one to a writer; '
            'C06_row_flow_check_monotone (deleting statements cannot break it); counterexample theorems (UPDATE without the copy; out_fields aliasing the record) exhibit the mutated / leaked input object. D21 (CSV writers normalised nested lists of the input table in place) found and fixed. ',
@@ -176,8 +177,8 @@ ADDENDA = {
            '(C16_frontends_no_shared_writes: rbql_csv / rbql_pandas / rbql_sqlite / rbql_main); histories include FROM queries (input from the registry) and all sequences of <= 3 (4) query_csv calls in which one relative join-table name denotes different files; SHARED OBJECTS: all sequences of <= 2 (3) queries over the same table objects and one registry object; all sequences of <= 3 (4) queries over ONE sqlite connection; the adapter modules store to no attribute of an object the caller handed over (generated). ',
     'C20': 'CONSUMER INDEPENDENCE: every multi-chunk stream is read twice by the real rbql-js reader — get_all_records from a synchronous source, and a consumer that yields to the event loop from an asynchronous source — both must equal the model. ',
     'C02': 'CSV SINK: DISTINCT / ORDER BY / TOP queries with number, None and quote-needing cells through query_csv against query_table (the CSV writer renders the record it is handed; that must not leak into what the stages remember). ',
-    'C15': 'STDOUT AS A REAL PIPE: query_csv writing to a pipe whose reader is gone (results of 0 / 1 / 20 / 30000 records, so the break happens at the final flush or inside the loop) must return and leave no descriptor it opened behind (/proc/self/fd). ',
-    'C14': 'BOM END TO END: query_csv on files through the real decoders of both ports: the BOM warning appears iff the input / join table bytes begin with EF BB BF (utf-8 and latin-1, every policy, with and without header) and the mark never reaches the output. ',
+    'C15': 'OUTPUT PATH THAT IS A PIPE (FIFO whose reader is gone; D29 fixed): 28 scenarios; every file-descriptor scenario also pins the error CLASS the query ends in (a failure while winding up must not replace the error that stopped the query). STDOUT AS A REAL PIPE: query_csv writing to a pipe whose reader is gone (results of 0 / 1 / 20 / 30000 records, so the break happens at the final flush or inside the loop) must return and leave no descriptor it opened behind (/proc/self/fd). ',
+    'C14': 'TEXT-DETECTABLE MISTAKES are reported whatever the data: every static error also over an empty table and with a WHERE that rejects everything. BOM END TO END: query_csv on files through the real decoders of both ports: the BOM warning appears iff the input / join table bytes begin with EF BB BF (utf-8 and latin-1, every policy, with and without header) and the mark never reaches the output. ',
     'C19': 'THE rbql.js ENGINE IS NOW MODELLED where it differs from the reference (Model/EngineJs.lean: JSON.stringify-keyed Set/Map for DISTINCT, stable_compare over keys+NR then reverse, compare_key_arrays of decoded group keys, JSON text of multi-column join keys, TopWriter ignoring its sub-writer); '
            'the JS legs of C01-C07 and C19 are answered by runJs, cross-checked against the reference on every case. C19_json_identifies_all_records (JSON.stringify is injective on the value model, incl. jsNumRepr on all of Q), '
            'C19_js_order_by_is_reference_order, C19_js_group_order_is_reference_order, C19_js_compare_agrees_on_uniform_keys (numbers / BMP strings), C19_js_astral_order_counterexample (UTF-16 vs code-point order). ',
